@@ -79,6 +79,10 @@ claim("C06", "sanitiser dominance on SSA paths + accepting-path structure of the
       "Structural necessary condition for all redirect strings/whitelists: every redirect and page-link sink takes GetRedirect's result, \"/\" or a value validated on the path; GetRedirect returns only validated candidates; login URL is the configured endpoint with only the query rewritten; validators accept only through the whitelist branch (non-empty host, label-boundary suffix, port rule) or the relative test, whose extracted acceptance language is disjoint from scheme-relative targets on all strings up to length 5 over a 15-symbol adversarial alphabet. Level 'other'.",
       TRUST + " Also trusted: the model of net/http.Redirect rewriting and WHATWG preprocessing used as the 'bad' oracle. Not decided: absolute-URL parser differentials, longer strings, byte-for-byte landing.", "DESIGN.md §5 C06")
 
+claim("C17", "closed-world who-may-write enumeration on request fields + call-graph reachability of body consumers + accepting-path structure of the order comparator",
+      "PARTIAL: four structural necessary conditions only — request line/host/body written only in pkg/upstream or on clones; no body consumer on the pass path; the registration-order comparator is rewrite-first only against a plain upstream and longer-path-first otherwise; the rewrite query merge appends. Routing by gorilla/mux, percent-encoding fidelity and response relay are NOT decided. Level 'other'.",
+      TRUST + " Not decided: longest-prefix routing, encoding fidelity, response relay (third-party behaviour over all inputs).", "DESIGN.md §5 C17")
+
 for i in range(2, 21):
     pid = "C%02d" % i
     if pid not in T:
